@@ -382,7 +382,8 @@ func aggregateRows(selectList sql.SelectList, groupBy []sql.ColumnReference, row
 
 				// update the count of this particular group key + value
 				// combination
-				countKey := fmt.Sprintf("%s%s", key, avgCol)
+				// per select-list position: the same column may be averaged twice
+				countKey := fmt.Sprintf("%s%s/%d", key, avgCol, colIdx)
 				if _, ok := counts[countKey]; !ok {
 					counts[countKey] = 0
 				}
